@@ -249,4 +249,23 @@ example : (specE 2 (derivedSpecD (nestItemsD 2 [2]) 0 2
     [(0, ⟨[0, 0], 1⟩), (0, ⟨[0, 1], 2⟩), (1, ⟨[0, 0], 3⟩), (1, ⟨[0, 1], 4⟩), (2, ⟨[0], 5⟩)])).map (·.1) =
     [[0, 0], [0, 1]] := by decide +kernel
 
+/-- corollary: two arrival orders of a well-formed nested stream emit, up to the order of the entries inside a
+    schema, the same multiset (`dot[…, cart₁[…], …]`) -/
+theorem nested_cart_order_independent (Pi L : Nat) (plains : List Nat) (items : List Item) (i0 : Nat)
+    (hs : Shape items i0 (.cart 1) Pi plains) (S es es' : List Ev) (hwf : WFNest Pi L plains S)
+    (h : es.Perm S) (h' : es'.Perm S) :
+    ∃ N N', EmRel (runNested items es).out N ∧ EmRel (runNested items es').out N' ∧ N.Perm N' := by
+  obtain ⟨_, N, h1, h2⟩ := Comb.nested_cart_any_order hs S es hwf h
+  obtain ⟨_, N', h1', h2'⟩ := Comb.nested_cart_any_order hs S es' hwf h'
+  exact ⟨N, N', h1, h1', h2.trans h2'.symm⟩
+
+/-- the same for `dot[…, dot[…], …]` -/
+theorem nested_dot_order_independent (Pi M : Nat) (plains : List Nat) (items : List Item) (i0 : Nat)
+    (hs : Shape items i0 .dot Pi plains) (S es es' : List Ev) (hwf : WFNestD Pi M plains S)
+    (h : es.Perm S) (h' : es'.Perm S) :
+    ∃ N N', EmRel (runNested items es).out N ∧ EmRel (runNested items es').out N' ∧ N.Perm N' := by
+  obtain ⟨_, N, h1, h2⟩ := Comb.nested_dot_any_order hs S es hwf h
+  obtain ⟨_, N', h1', h2'⟩ := Comb.nested_dot_any_order hs S es' hwf h'
+  exact ⟨N, N', h1, h1', h2.trans h2'.symm⟩
+
 end SFV.C02
